@@ -34,8 +34,9 @@ import (
 //
 // Direct oracle (implementation only):
 //   (a) Increase adds to Rewards[program of the block's first output] exactly
-//       sum(TxData.Fee()) + subsidy (uint64), touches no other entry, and
-//       BlockReward/2 <= subsidy <= BlockReward;
+//       sum(TxData.Fee()) + subsidy (uint64), touches no other entry,
+//       BlockReward/2 <= subsidy <= BlockReward, and subsidy == the value recomputed
+//       independently from the vote table after the block (total votes, supply, same formula);
 //   (b) a coinbase accepted by checkCoinbaseAmount pays nothing unless height%epoch == 1, and
 //       then per program exactly the checkpoint's reward table (nothing else, nothing less);
 //   (c) the proposer's own coinbase is accepted by checkCoinbaseAmount, for every table;
@@ -224,9 +225,14 @@ func c14line(c *Ctx, st *c14state, line string) {
 			}
 		}()
 		sub := uint64(0)
+		var fails [][2]string
 		if res == "" {
 			sub = st.c.VerifValidatorReward()
 			res = ecSortedMap(st.c.Rewards)
+			// the exact subsidy, recomputed here from the vote table as it stands after this block
+			if exp := c14exactSubsidy(st.c.Votes, st.c.Height); exp != sub {
+				fails = append(fails, [2]string{"subsidy differs from the value recomputed from the vote table", fmt.Sprintf("height %d: validatorReward()=%d, recomputed from Votes=%d (votes %s)", height, sub, exp, ecSortedMap(st.c.Votes))})
+			}
 			// oracle (a)
 			script := hex.EncodeToString(blk.Transactions[0].Outputs[0].ControlProgram)
 			want := before[script]
@@ -237,24 +243,27 @@ func c14line(c *Ctx, st *c14state, line string) {
 			}
 			want += sub
 			if st.c.Rewards[script] != want {
-				c.Fail("Increase: reward entry != previous + fees + subsidy", fmt.Sprintf("%s: got %d want %d", script, st.c.Rewards[script], want))
+				fails = append(fails, [2]string{"Increase: reward entry != previous + fees + subsidy", fmt.Sprintf("%s: got %d want %d", script, st.c.Rewards[script], want)})
 			}
 			for k, v := range st.c.Rewards {
 				if k != script && before[k] != v {
-					c.Fail("Increase: touched another program's reward", k)
+					fails = append(fails, [2]string{"Increase: touched another program's reward", k})
 				}
 			}
 			if len(st.c.Rewards) != len(before) && len(st.c.Rewards) != len(before)+1 {
-				c.Fail("Increase: reward table size changed unexpectedly", res)
+				fails = append(fails, [2]string{"Increase: reward table size changed unexpectedly", res})
 			}
 			if sub > consensus.BlockReward || sub < consensus.BlockReward/2 {
-				c.Fail("validatorReward outside [BlockReward/2, BlockReward]", fmt.Sprint(sub))
+				fails = append(fails, [2]string{"validatorReward outside [BlockReward/2, BlockReward]", fmt.Sprint(sub)})
 			}
 			st.accumulated.Add(st.accumulated, fees)
 			st.accumulated.Add(st.accumulated, new(big.Int).SetUint64(sub))
 			c.Count(fmt.Sprintf("apply/subsidy=%s", c14subClass(sub)))
 		}
 		c.Op(fmt.Sprintf("apply %d %d %d %s", height, ts, sub, suffix), res)
+		for _, f := range fails {
+			c.Fail(f[0], f[1])
+		}
 	case "check":
 		height := u(w[1])
 		outs := ecParseOuts(w[3])
@@ -306,11 +315,12 @@ func c14line(c *Ctx, st *c14state, line string) {
 	case "propose":
 		height := u(w[1])
 		outs, res := c14propose(st, height)
+		var fails [][2]string
 		if res == "" {
 			res = c14canon(outs)
 			// oracle (c)
 			if v := c14check(st, height, true, outs); v != "ok" {
-				c.Fail("proposer's coinbase rejected by checkCoinbaseAmount", fmt.Sprintf("height %d table=%s coinbase=%s verdict=%s", height, ecSortedMap(st.c.Rewards), res, v))
+				fails = append(fails, [2]string{"proposer's coinbase rejected by checkCoinbaseAmount", fmt.Sprintf("height %d table=%s coinbase=%s verdict=%s", height, ecSortedMap(st.c.Rewards), res, v)})
 			}
 			E := consensus.ActiveNetParams.BlocksOfEpoch
 			if E != 0 && height%E == 1 && height != 1 {
@@ -321,13 +331,16 @@ func c14line(c *Ctx, st *c14state, line string) {
 					paid.Add(paid, new(big.Int).SetUint64(o.amount))
 				}
 				if st.pendingPay != nil && paid.Cmp(st.pendingPay) != 0 {
-					c.Fail("first-of-epoch coinbase total != reward table total of the previous epoch", fmt.Sprintf("paid %s owed %s", paid, st.pendingPay))
+					fails = append(fails, [2]string{"first-of-epoch coinbase total != reward table total of the previous epoch", fmt.Sprintf("paid %s owed %s", paid, st.pendingPay)})
 				}
 			} else {
 				c.Count("propose/zero")
 			}
 		}
 		c.Op(line, res)
+		for _, f := range fails {
+			c.Fail(f[0], f[1])
+		}
 	case "epochend":
 		// bookkeeping only (no model op): the table of the finished epoch is what must be paid next
 		st.pendingPay = c14total(st.c.Rewards)
@@ -336,6 +349,21 @@ func c14line(c *Ctx, st *c14state, line string) {
 		}
 		st.accumulated = new(big.Int)
 	}
+}
+
+// c14exactSubsidy recomputes validatorReward() independently: total of the vote table (uint64,
+// as the code adds it), total supply at that height, the same float64 expression.
+func c14exactSubsidy(votes map[string]uint64, height uint64) uint64 {
+	var total uint64
+	for _, v := range votes {
+		total += v
+	}
+	supply := height*consensus.BlockReward/2 + consensus.InitBTMSupply
+	rate := float64(total) / float64(supply)
+	if rate <= consensus.RewardThreshold {
+		return uint64((rate + consensus.RewardThreshold) * float64(consensus.BlockReward))
+	}
+	return consensus.BlockReward
 }
 
 func c14subClass(s uint64) string {
@@ -372,6 +400,10 @@ func c14case(c *Ctx) []string {
 	default:
 		votes = []ecPair{{"01", c.Rng.Uint64() >> uint(c.Rng.Intn(10))}, {"02", c.Rng.Uint64() >> uint(5+c.Rng.Intn(30))}}
 	}
+	tally := map[string]uint64{}
+	for _, v := range votes {
+		tally[v.key] = v.val
+	}
 	startEpoch := uint64(c.Rng.Intn(3))
 	height := startEpoch * epoch
 	ts := uint64(1600000000000)
@@ -403,11 +435,48 @@ func c14case(c *Ctx) []string {
 			fmt.Fprintf(&sb, "apply %d %d 0 %s T - - 0", height, ts, outs0)
 			for t, nt := 0, c.Rng.Intn(4); t < nt; t++ {
 				var ve, vo []ecPair
-				if c.Rng.Intn(4) == 0 {
-					ve = append(ve, ecPair{"01", uint64(c.Rng.Intn(1000))})
+				veto := func(k string, a uint64) {
+					ve = append(ve, ecPair{k, a})
+					if tally[k] > a {
+						tally[k] -= a
+					} else {
+						delete(tally, k)
+					}
 				}
-				if c.Rng.Intn(4) == 0 {
-					vo = append(vo, ecPair{[]string{"01", "02", "03"}[c.Rng.Intn(3)], uint64(c.Rng.Intn(100000))})
+				keys := []string{"01", "02", "03", "04"}
+				switch c.Rng.Intn(6) {
+				case 0:
+					veto("01", uint64(c.Rng.Intn(1000)))
+				case 1, 2:
+					// FULL veto: takes back the whole tally of a key (the entry is deleted), mid-epoch
+					k := keys[c.Rng.Intn(len(keys))]
+					if tally[k] > 0 {
+						veto(k, tally[k])
+					}
+					if c.Rng.Intn(3) == 0 {
+						k2 := keys[c.Rng.Intn(len(keys))]
+						if tally[k2] > 0 {
+							veto(k2, tally[k2])
+						}
+					}
+				case 3:
+					// partial veto / veto above the tally
+					k := keys[c.Rng.Intn(len(keys))]
+					if tally[k] > 0 {
+						veto(k, []uint64{tally[k] / 2, tally[k] - 1, tally[k] + 1}[c.Rng.Intn(3)])
+					}
+				}
+				if c.Rng.Intn(3) == 0 {
+					k := keys[c.Rng.Intn(len(keys))]
+					a := uint64(c.Rng.Intn(100000))
+					switch c.Rng.Intn(3) {
+					case 0:
+						a = consensus.InitBTMSupply / uint64(8+c.Rng.Intn(40))
+					case 1:
+						a = 1000000000000000 * uint64(1+c.Rng.Intn(30))
+					}
+					vo = append(vo, ecPair{k, a})
+					tally[k] += a
 				}
 				fee := uint64(c.Rng.Intn(5000000))
 				if c.Rng.Intn(5) == 0 {
